@@ -44,6 +44,7 @@ def with_short_output(times, steps, fullpos):
 def build(T, cls, times, steps, fullpos, k0):
     log = []
     lst = getattr(T, cls).__new__(getattr(T, cls))
+    lst._table = {}
     lst._file = FileStub(log)
     lst.fulltimes, lst.fullsteps, lst._fullpos = times, steps, fullpos
     lst.times, lst.steps, lst._pos = with_short_output(times, steps, fullpos)
@@ -214,7 +215,8 @@ def replay_file(d):
             except c6.NonTermination as ex:
                 return True, head + 'terminates: %s from index %d does not return: %s' % (label, k, ex)
             except Exception as ex:
-                return True, head + 'no-exception: %s from index %d raised %s: %s' % (label, k, type(ex).__name__, str(ex)[:100])
+                if not (kind == 'history' and arg.get('may_raise')):
+                    return True, head + 'no-exception: %s from index %d raised %s: %s' % (label, k, type(ex).__name__, str(ex)[:100])
             finally:
                 signal.setitimer(signal.ITIMER_REAL, 0); signal.signal(signal.SIGALRM, old)
                 lst._file = cf.f
@@ -235,8 +237,8 @@ def replay_file(d):
             a, b = lst._table[tn], ref._table[tn]
             if list(a.row_name) != list(b.row_name) or a._data.shape != b._data.shape:
                 return True, head + 'tables: rows of table %s differ from those of a fresh reader' % tn
-            if not np.array_equal(a._data, b._data):
-                i, j = [int(x[0]) for x in np.nonzero(a._data != b._data)]
+            if not np.array_equal(a._data, b._data, equal_nan=True):
+                i, j = [int(x[0]) for x in np.nonzero((a._data != b._data) & ~(np.isnan(a._data) & np.isnan(b._data)))]
                 return True, head + 'tables: table %s row %d (%r) column %s shows %r, a fresh reader positioned at index %d shows %r' % (
                     tn, i, a.row_name[i], a.column_name[j], a._data[i, j], k, b._data[i, j])
         # both readers against the printed numbers of result set k
@@ -268,6 +270,7 @@ def replay(d):
     fullpos = [1000 + 137 * k * k + 61 * k for k in range(n)]
     log = []
     lst = getattr(T, cls).__new__(getattr(T, cls))
+    lst._table = {}
     lst._file = FileStub(log)
     if cls == 't2listing':
         lst.fulltimes, lst.fullsteps, lst._fullpos = times, steps, fullpos
